@@ -371,6 +371,7 @@ fn race_body(r: &Race) -> Result<(), String> {
     });
     let mut log = Vec::new();
     for (i, (big, attach)) in r.stream.iter().enumerate() {
+        e1::inproc_point();
         let b = CLOCK.fetch_add(1, Ordering::SeqCst);
         let res = tx.send(mk(i as u32, *big, *attach));
         let e = CLOCK.fetch_add(1, Ordering::SeqCst);
@@ -405,15 +406,25 @@ pub fn scenarios(tier: Tier) -> Vec<Scenario> {
         for carrier in [false, true] {
             let r = Race { stream: s.clone(), carrier };
             let name = format!("{:?}", r);
-            v.push(Scenario::new(name, sched_cfg(), if tier.is_quick() { 3 } else { 4 }, move || race_body(&r)));
+            let mut cfg = sched_cfg();
+            cfg.yield_alts = cfg!(feature = "inproc");
+            v.push(Scenario::new(name, cfg, if tier.is_quick() { 3 } else { 4 }, move || race_body(&r)));
         }
     }
     v
 }
 
-pub fn run(tier: Tier, _part: bool) -> i32 {
-    let mut rep = Report::new("C09", tier, "exploration");
-    let cs = cases(tier);
+pub fn run(tier: Tier, part_only: bool) -> i32 {
+    super::run_with_inproc("C09", tier, part_only, "exploration", &run_all)
+}
+
+fn run_all(rep: &mut Report, tier: Tier) {
+    let inproc = cfg!(feature = "inproc");
+    let mut cs = cases(tier);
+    if inproc {
+        // in-process channels do not cross fork(): no forked holder, no crashing sender process
+        cs.retain(|c| c.who != Who::Proc);
+    }
     let mut n = 0u64;
     let mut distinct: HashSet<Case> = HashSet::new();
     let mut fails = Vec::new();
@@ -432,7 +443,7 @@ pub fn run(tier: Tier, _part: bool) -> i32 {
     for (c, e) in fails {
         rep.fail(&format!("{} :: {:?}", e, c), json!({"engine": "E2", "case": c}));
     }
-    let ccs = crash_cases(tier);
+    let ccs = if inproc { Vec::new() } else { crash_cases(tier) };
     let mut couts: HashSet<String> = HashSet::new();
     let mut cfails = Vec::new();
     sweep(&ccs, 60.0, &|_| Cfg { sched: true, fake_sndbuf: Some(4608), ..Default::default() }, &crash_body, &mut |_, c, out| {
@@ -448,7 +459,7 @@ pub fn run(tier: Tier, _part: bool) -> i32 {
     for (c, e) in cfails {
         rep.fail(&format!("{} :: {:?}", e, c), json!({"engine": "E2-crash", "case": c}));
     }
-    if !couts.iter().any(|o| o.contains("complete")) || !couts.iter().any(|o| o.contains("interrupted")) {
+    if !inproc && (!couts.iter().any(|o| o.contains("complete")) || !couts.iter().any(|o| o.contains("interrupted"))) {
         rep.machinery(format!("crash cases did not produce both a complete and an interrupted carrier message: {:?}", couts));
     }
     rep.set("crash_case_outcomes", json!(couts.iter().cloned().collect::<Vec<_>>()));
@@ -466,17 +477,17 @@ pub fn run(tier: Tier, _part: bool) -> i32 {
         rep.fail(&format!("{} :: undecodable carrier (3-packet={}, try_recv={})", e, c.0, c.1), json!({"engine": "E2-undecodable", "case": c}));
     }
     let scs = scenarios(tier);
-    let tot = e1::run_scenarios(&mut rep, &scs, &e1::strict_judge, if tier.is_quick() { 20.0 } else { 1500.0 });
+    let tot = e1::run_scenarios(rep, &scs, &e1::strict_judge, if tier.is_quick() { 20.0 } else { 1500.0 });
     rep.set("evaluations", json!(n + tot.execs));
     rep.set("distinct_nontrivial", json!(distinct.len() as u64 + couts.len() as u64 + tot.with_switch));
     rep.set("rule", json!("E2 case = (stream of <= 3 (5) sends over {small, 3-packet} x {plain, sender+region attached}, position of the drop 0..=n, dropper in {same thread, other thread, forked process that exits}, receiver held directly / inside an undelivered message of a carrier that is dropped / in transit and unpacked at that position), SIGPIPE reset to its default disposition, single task under the scheduler; E2-crash case = (carrier message of 1 or 3 packets holding the only handle of a receiver, its sending process killed before transport call k = 0..=4 (0..=9), carrier observed with recv or a receiver set): interrupted => sends to the lost receiver fail, complete => the send made in transit is delivered after unpacking; E2-undecodable: the carrier message (1 or 3 packets) arrives but fails to decode before the receiver field (recv / try_recv) => sends to the lost receiver fail; E1: one evaluation = one schedule (<= bound deviations) of a dropper task racing the stream; non-trivial = at least one send after the drop"));
     rep.set("exhaustive", json!(!tot.capped));
     rep.sample(json!({"case": cs[cs.len() / 2]}));
     rep.assume("sends racing the drop may return either result; only sends begun after the drop completed must fail, only sends returned before it began must succeed");
-    rep.finish()
 }
 
 pub fn replay(tier: Tier, v: &Value) -> i32 {
+    let v = if v.get("variant").is_some() { &v["case"] } else { v };
     if v["engine"] == "E2-undecodable" {
         let Ok(c) = serde_json::from_value::<(bool, bool)>(v["case"].clone()) else { return 2 };
         for r in 0..2 {
